@@ -14,7 +14,7 @@ Expressions (lists):
   ["bin", op, l, r]  ["not", e]  ["in", e, [item...]] item = expr | ["rng", lo, hi]
   ["inl", e, listkey]  ["ps", key, hi, lo]
   ["el", listkey, idx_expr, attr|None]  ["iv", name]  ["it", name, attr|None]
-  ["sz", listkey]  ["sum", listkey]  ["dyn", name]
+  ["sz", listkey]  ["sum", listkey]  ["prod", listkey]  ["dyn", name]
 Statements:
   ["expr", e]  ["if", [[cond, [stmts]]...], else|None]  ["implies", cond, [stmts]]  ["unique", [exprs]]
   ["uvec", [listkeys]]  ["foreach", listkey, iv|None, it|None, [stmts]]  ["soft", e]
@@ -125,6 +125,8 @@ def width(e, c):
         return 32
     if k == "sz":
         return 32
+    if k == "prod":
+        return 64
     if k == "sum":
         t = c.types[e[1] + "[]"]
         n = c.env["#" + e[1]]
@@ -156,7 +158,7 @@ def signed(e, c):
         return c.types[elkey(e, c)[1]]["signed"]
     if k == "iv":
         return True        # a foreach index behaves like the Python int literal of its value (32-bit signed)
-    if k == "sum":
+    if k in ("sum", "prod"):
         return c.types[e[1] + "[]"]["signed"]
     raise ValueError("signed of " + repr(e))
 
@@ -196,6 +198,14 @@ def ev(e, c, ctx=-1):
         return (c.loop[e[1]][0] & mask(w), w)
     if k == "sz":
         return (c.env["#" + e[1]] & mask(32), 32)
+    if k == "prod":
+        # 64-bit product of the elements (the library's product of an empty list is 0)
+        n = c.env["#" + e[1]]
+        w = max(64, ctx)
+        pr = 1 if n else 0
+        for i in range(n):
+            pr *= c.env["%s[%d]" % (e[1], i)]
+        return (pr & mask(w), w)
     if k == "sum":
         t = c.types[e[1] + "[]"]
         n = c.env["#" + e[1]]
@@ -455,7 +465,7 @@ def fields_of_expr(e, acc=None):
     elif k == "inl":
         fields_of_expr(e[1], acc)
         acc.add(e[2])
-    elif k in ("el", "sz", "sum"):
+    elif k in ("el", "sz", "sum", "prod"):
         acc.add(e[1])
     elif k in ("it", "iv"):
         acc.add("$" + e[1])
@@ -531,7 +541,7 @@ def prefix_expr(e, p):
         return ["dyn", p + e[1]]
     if k == "el":
         return ["el", p + e[1]] + e[2:]
-    if k in ("sz", "sum"):
+    if k in ("sz", "sum", "prod"):
         return [k, p + e[1]]
     if k == "inl":
         return ["inl", prefix_expr(e[1], p), p + e[2]]
